@@ -61,15 +61,20 @@ void dump_art(const ArtFile& a, Emit& e) {
 void sc_vol(Tape& t, int variant, Emit& e) {
 	volgen::root();
 	unsigned n = unsigned(t.below(6));
+	if (t.below(8) == 0) n = 70 + unsigned(t.below(40));   // a name table and an index beyond 1 KiB (names of at least 12 characters): whatever staging a writer uses for them
 	std::vector<std::pair<std::string, std::vector<uint8_t>>> fs;
 	for (unsigned i = 0; i < n; ++i) {
-		std::string nm = volgen::gen_name(t, 12);
+		std::string nm = volgen::gen_name(t, n > 6 ? 20 : 12); if (n > 6 && nm.size() < 12) nm += std::string(12 - nm.size(), char('k' + i % 5));
 		// half of the later names extend an earlier one (possibly in another letter case): prefix-related names are where a sort
 		// that is not a strict weak order, or not total on them, lets the listing order leak into the archive
 		if (i && t.flag()) { nm = volgen::case_variant(fs[t.below(fs.size())].first, t.u8()) + t.pick<std::string>({".bak", "x", "_", ".txt", "0", " ", "\xFF", "\xFFq", "\xFE", "\x80z"}); }
 		else if (t.below(8) == 0 && !nm.empty()) nm[t.below(nm.size())] = char(t.pick<uint8_t>({0xFF, 0xFF, 0xFE, 0x80, 0xE9}));   // bytes above 0x7F, 0xFF (-1 as a signed char) in particular, at the place where two names first differ
-		for (auto& f : fs) if (refvol::ieq(f.first, nm)) nm += char('0' + i);
-		fs.push_back({nm, t.expand(t.below(200))});
+		// one later name in six is the TWIN of an earlier one: the same text except for one byte of a pair that differs only in the ASCII case bit
+		// ([ {, ] }, ^ ~, \ |, @ `): different names, which a comparison folding too much ties - and then the listing order shows in the archive
+		if (i && t.below(6) == 0) { std::string b0 = fs[t.below(fs.size())].first; size_t at = b0.find_first_of("[]^\\@{}~|`"); if (at == std::string::npos && b0.size() < 24) { b0.insert(b0.begin() + long(t.below(b0.size() + 1)), t.pick<char>({'[', ']', '^', '\\', '@'})); at = b0.find_first_of("[]^\\@"); }
+			if (at != std::string::npos) { nm = b0; nm[at] = char(nm[at] ^ 0x20); bool had = false; for (auto& f : fs) if (f.first == b0) had = true; if (!had) fs.push_back({b0, t.expand(t.below(50))}); } }
+		{ bool clash; unsigned k = 0; do { clash = false; for (auto& f : fs) if (refvol::ieq(f.first, nm)) { clash = true; nm += std::to_string(i + k++); } } while (clash); }
+		fs.push_back({nm, t.expand(t.below(n > 6 ? 12 : 200))});
 	}
 	volgen::mkdirs("%in/"); volgen::mkdirs("%o/");
 	std::vector<std::string> paths;
